@@ -11,7 +11,6 @@ ROOT = os.path.dirname(os.path.dirname(os.path.abspath(__file__)))
 CLAIMED: dict[str, tuple] = {}
 
 NOT_APPLICABLE: dict[str, str] = {
-    "C42": "needs multi-device execution; sharding equality is a runtime property",
 }
 
 
